@@ -486,7 +486,9 @@ func init() {
 						pb = 4
 					}
 				}
-				for _, cfg := range []Cfg{defaultCfg, bt} {
+				rot := defaultCfg
+				rot.FileSize = 64 // every record rotates: racing writers roll the active file over during the scan
+				for _, cfg := range []Cfg{defaultCfg, bt, rot} {
 					for _, iname := range sortedKeys(c08MergeInits) {
 						for si, ts := range c08Shapes(shape) {
 							sc := Scenario{Cfg: cfg, Init: c08MergeInits[iname], Threads: ts}
